@@ -92,7 +92,27 @@ def rule_r3(ctx):
     ctx.check(len(loops) == 1 and src(loops[0].iter) == "children", "R3-coalesce", c, "children visited in order", site(f), "iteration over children changed", "in order")
 
 
+def rule_r5(ctx):
+    """Shape of the nullable-set computation (the chart's nullable prediction depends on it): least fixed point of
+    'A is nullable if some production of A consists of nullable symbols only'."""
+    f = ctx.repo.func(PARSER, "nullable", "C10.R5")
+    c = f"{PARSER}:nullable"
+    inner = next((n for n in ast.walk(f) if isinstance(n, ast.FunctionDef) and n is not f), None)
+    fix = inner is not None and any(src(d) == "fixpoint" for d in inner.decorator_list)
+    body_ok = inner is not None and any(isinstance(n, ast.If) and src(n.test) == "nullable_expr(expr, nullables)" for n in ast.walk(inner)) and any(isinstance(n, ast.AugAssign) and src(n.target) == "nullables" and src(n.value) == "{A}" for n in ast.walk(inner))
+    start = any(isinstance(r, ast.Return) and src(r.value).endswith("({EPSILON})") for r in walk_local(f))
+    if not (fix and body_ok and start):
+        raise Unrecognised("C10.R5", c, "nullable() is no longer the recognised fixed-point iteration over all productions; its correctness (e.g. productions that repeat a nullable symbol) must be re-established")
+    ctx.ok("R5-nullable-fixpoint", c, "least fixed point over all productions", site(f), "fixpoint iteration of nullable_expr")
+    ne = ctx.repo.func(PARSER, "nullable_expr", "C10.R5")
+    ctx.check(src(ne.body[-1]) == "return all((token in nullables for token in expr))", "R5-nullable-fixpoint", f"{PARSER}:nullable_expr", "all symbols of the production nullable", site(ne), f"found {src(ne.body[-1])}", "all()")
+    fp = ctx.repo.func(PARSER, "fixpoint", "C10.R5")
+    t = " ".join(src(fp).split())
+    ctx.check("while True" in t and "if str(arg_) == sarg: return arg" in t.replace("\n", " "), "R5-nullable-fixpoint", f"{PARSER}:fixpoint", "iterate until unchanged", site(fp), "fixpoint helper changed", "until stable")
+
+
 def run(ctx) -> str:
+    ctx.guarded("R5", lambda: rule_r5(ctx))
     ctx.guarded("R1", lambda: rule_r1(ctx))
     ctx.guarded("R2", lambda: rule_r2(ctx))
     ctx.guarded("R3", lambda: rule_r3(ctx))
